@@ -20,6 +20,12 @@ M_PRIMS = {
     "sqfs_ostream_open_file": 1, "sqfs_file_open": 1, "sqfs_native_file_open": 1, "mkdir_p": 0,
 }
 FOLLOWING_VARIANTS = {"chmod", "chown", "utimes", "utime", "setxattr", "truncate", "truncate64"}
+# object-creating / renaming calls for which the unpacker has no reviewed discipline.  Its safety argument is that every
+# path it later writes through was created by itself, as the type it expects, with O_EXCL / mkdir / mknod / symlink;
+# a second way to make names (link, rename, ...) lets the image decide what a later open() or chmod() lands on
+UNREVIEWED_CREATORS = {"link", "linkat", "rename", "renameat", "renameat2", "creat", "creat64", "mkfifo", "mkfifoat", "symlinkat",
+                       "mkdirat", "mknodat", "openat", "openat64", "fopen", "fopen64", "freopen", "unlink", "unlinkat", "rmdir",
+                       "remove", "lchown", "lutimes", "futimesat", "removexattr", "lremovexattr", "mount", "chroot"}
 O_CREAT, O_EXCL, O_TRUNC, O_WRONLY, O_RDWR = 0o100, 0o200, 0o1000, 1, 2
 AT_SYMLINK_NOFOLLOW = 0x100
 SQFS_FILE_OPEN_READ_ONLY = 0      # mode mask 0x03: 0 = read only
@@ -293,6 +299,12 @@ def flags_rule(chk, prog, mset):
             elif name in FOLLOWING_VARIANTS:
                 chk.violation("K12-flags", "%s:%s" % (f.name, name), c,
                               "%s follows symlinks; the unpacker must use the non-following variant" % name)
+            elif name in UNREVIEWED_CREATORS:
+                chk.violation("K12-flags", "%s:%s" % (f.name, name), c,
+                              "%s creates, renames or removes names under the unpack root outside the reviewed set (open with "
+                              "O_CREAT|O_EXCL, mkdir, mknod, symlink): the argument that every path written later was created by "
+                              "the unpacker itself, as the type it expects, no longer holds (e.g. link() gives a symlink a second "
+                              "name that a later open() follows)" % name)
             elif name == "lsetxattr":
                 chk.ok("K12-flags", "%s:lsetxattr" % f.name, c, "xattrs are set without following symlinks")
 
@@ -361,6 +373,82 @@ def sort_agrees_with_dupcheck(chk, prog, dups):
                           "adjacent-duplicate test")
 
 
+def sort_has_no_shortcut(chk, prog, dups):
+    """the sort in front of the adjacent-duplicate test really sorts: a sort function hands its input back unchanged only in
+    the trivial cases (empty / one element: pointer tests), or behind a comparison-derived flag that was computed by a scan
+    over *all* adjacent pairs (the cursor that is compared is the one whose end terminates the scan)"""
+    from ..errflow import ret_sources
+    n = 0
+    for F in dups:
+        reach, _, _ = prog.reachable_from([F], stop=lambda g: g.unit is not F.unit)
+        for g in reach:
+            if g is F or not name_comparisons(prog, g) and not any(norm_callee(c.callee) == g.name for c in g.calls()):
+                continue
+            # recursive sorters: functions that call themselves and return node pointers
+            if not any(norm_callee(c.callee) == g.name for c in g.calls()):
+                continue
+            g.build()
+            chk.analysed(g)
+            for (v, b) in ret_sources(g):
+                w = strip_casts(v)
+                if w.is_inst and w.op == "call":
+                    continue            # result of the merge / of a recursive call
+                n += 1
+                inst = "%s:return-unsorted@%d" % (g.name, b.term.line or 0)
+                facts = list(g.guards_at(b))
+                t = b.term
+                if t.op == "br" and len(t.x["succ"]) == 2:
+                    for k, s_ in enumerate(t.x["succ"]):
+                        if any(i.op in ("phi", "ret") for i in s_.insts):
+                            facts.append((t.ops[0], k == 0, t))
+                # a || b in front of the return: the block is entered over several conditional edges
+                for pb in b.preds:
+                    tt = pb.term
+                    if tt.op == "br" and len(tt.x["succ"]) == 2:
+                        facts.append((tt.ops[0], tt.x["succ"][0] is b, tt))
+                bad = None
+                for (cond, outcome, br) in facts:
+                    sl = backward_slice(cond, phi_control=True)
+                    cmps = [x for x in sl if x.is_inst and x.op == "call" and norm_callee(x.callee) in STR_COMPARES]
+                    if not cmps:
+                        continue
+                    for cmpc in cmps:
+                        if not _full_adjacent_scan(g, cmpc):
+                            bad = cmpc
+                if bad is None:
+                    chk.ok("K2-sorttotal", inst, b.term, "the input list is handed back unsorted only when it is empty or has one element "
+                           "(or after a scan over all adjacent pairs)")
+                else:
+                    chk.violation("K2-sorttotal", inst, bad, "the sort returns its input unchanged when a comparison-derived flag is set, "
+                                  "but the scan that computes the flag does not run to the end of the list (its loop ends on another "
+                                  "cursor): an unsorted tail stays unsorted and same-named entries are not adjacent for the duplicate test")
+    return n
+
+
+def _full_adjacent_scan(g, cmpc):
+    """strcmp(x->name, y->name) sits in a loop whose exits test x or y (their loop-carried web) against NULL"""
+    loop = g.loop_of(cmpc.bb)
+    if loop is None:
+        return False
+    header, body = loop
+    web = set()
+    for a in cmpc.ops[:2]:
+        for x in backward_slice(a, phi_control=False):
+            if x.is_inst and x.op == "phi" and x.bb is header:
+                web.add(id(x))
+    if not web:
+        return False
+    for b in body:
+        t = b.term
+        if t.op == "br" and len(t.x["succ"]) == 2 and any(s_ not in body for s_ in t.x["succ"]):
+            cond = t.ops[0]
+            if not (cond.is_inst and cond.op == "icmp" and cond.ops[1].is_const and cond.ops[1].is_null):
+                return False
+            if not any(x.is_inst and x.op == "phi" and id(x) in web for x in backward_slice(cond.ops[0], phi_control=False)):
+                return False
+    return True
+
+
 def find_dup_check(prog):
     """the function that rejects duplicate sibling names: strcmp over two node names with a failing return on equality"""
     res = []
@@ -416,6 +504,7 @@ def ordering_rule(chk, prog, mset):
                       "unpacker: a symlink followed by a same-named directory lets files be written through the link")
         return
     sort_agrees_with_dupcheck(chk, prog, dups)
+    sort_has_no_shortcut(chk, prog, dups)
     dup_calls = [c for c in main.calls() if prog.fn(c.callee or "", main.unit) in dups]
     mcalls = []
     for c in main.calls():
@@ -599,6 +688,7 @@ def run(chk):
     chk.floor("K1-gate", 7)
     chk.floor("K1-sanitise", 5)
     chk.floor("K12-flags", 5)
+    chk.floor("K2-sorttotal", 1)
     chk.floor("K1-order", 5)
     chk.floor("K1-cmdline", 4)
     chk.floor("K1-getpath", 2)
